@@ -286,7 +286,10 @@ impl Check for C15 {
         let p: Plan = serde_json::from_value(plan.clone()).expect("bad C15 plan");
         let made: Made = match kinds::make(&p.file) {
             Ok(m) => m,
-            Err(e) => panic!("harness: cannot make {:?}: {e}", p.file),
+            Err(_) => {
+                ctx.stats.probe("workload_unbuildable", 1);
+                return Vec::new();
+            }
         };
         let kind = p.file.kind;
         let quick = true;
